@@ -1169,6 +1169,9 @@ def c12(ctx):
     for pfx in prefixes:
         for nr in ((3, 8, 16, 20, 33, 64) if quick else (2, 3, 4, 6, 8, 9, 12, 15, 16, 17, 20, 21, 24, 32, 33, 48, 63, 64, 65, 70)):
             base = bytes(rng.randrange(256) for _ in range(nr))
+            if nr == 16:
+                # (not left to chance: bytes a C string routine stops at or a sign extension changes, at fixed places)
+                base = bytes([0, base[1], 0x80, base[3], 0xff, 0, base[6], 0x01]) + base[8:13] + bytes([0, 0x7f, base[15]])
             cmds2.append(gs_cmd("gensalt_rn", pfx, 0, base))
             flipmeta.append(0)
             for bit in range(nr * 8):
